@@ -1,6 +1,8 @@
 package main
 
 import (
+	"crypto/sha256"
+	"encoding/hex"
 	"context"
 	"fmt"
 	"os"
@@ -58,6 +60,26 @@ func runSolver(s solverSpec, file string, timeout int) (verdict, out string, sec
 
 // solve discharges one obligation with the solver portfolio.
 func solve(o *Obligation, dir string, timeout int, all bool, wantModel bool) *SolveResult {
+	// memo: a query text that was refuted before (same prelude, spec, hypotheses and goal, byte for byte)
+	// is not solved again. Only "unsat" is remembered; the memo lives under work/ and may be absent.
+	var memoFile string
+	if o.raw == "" && o.Kind != "cover" && o.fv != nil && !all && os.Getenv("TGVC_NOMEMO") == "" {
+		sum := sha256.Sum256([]byte(o.query()))
+		hx := hex.EncodeToString(sum[:])
+		memoFile = filepath.Join(filepath.Dir(dir), "memo", hx[:2], hx)
+		if b, err := os.ReadFile(memoFile); err == nil && strings.HasPrefix(string(b), "unsat ") {
+			return &SolveResult{File: memoFile, Verdict: "unsat", Solver: "memo:" + strings.TrimSpace(strings.TrimPrefix(string(b), "unsat ")), Tried: []string{"memo"}}
+		}
+	}
+	r := solve1(o, dir, timeout, all, wantModel)
+	if memoFile != "" && r.Verdict == "unsat" {
+		os.MkdirAll(filepath.Dir(memoFile), 0o755)
+		os.WriteFile(memoFile, []byte("unsat "+strings.SplitN(r.Solver, " ", 2)[0]+"\n"), 0o644)
+	}
+	return r
+}
+
+func solve1(o *Obligation, dir string, timeout int, all bool, wantModel bool) *SolveResult {
 	// first a reduced query (hypotheses within 2 steps of the goal): only an
 	// "unsat" answer is used; anything else falls back to the full query
 	if o.raw == "" && o.Kind != "cover" && o.fv != nil && !all {
